@@ -118,7 +118,8 @@ PROPS["C20"] = {
     "title": "Prometheus metrics equal the sums over observed results",
     "units": [{"name": "prom", "pkg": "prom", "run": "^TestC20", "scale_thorough": 4},
               {"name": "pump", "pkg": "main", "run": "^TestC20", "shards_quick": 1, "shards_thorough": 4},
-              {"name": "prom-race", "pkg": "prom", "run": "^TestC20", "race": True, "shards_quick": 1, "shards_thorough": 4}],
+              {"name": "prom-race", "pkg": "prom", "run": "^TestC20", "race": True, "shards_quick": 1, "shards_thorough": 4},
+              {"name": "aging", "pkg": "promsync", "go": "go1.26.8", "run": "^TestC20Aging", "shards_quick": 2, "shards_thorough": 8}],
     "rule": "rapid draws histories of 0..400 results (thorough also 2000..1e4) over 1..4 methods x 1..4 URLs x 1..6 status "
             "codes with error texts from a pool (also on success codes), byte counts < 2^32, latencies exactly on / 1 ns "
             "around the exported bucket bounds; observed sequentially or by 2..16 goroutines (also under -race). "
